@@ -138,6 +138,7 @@ pub fn run_history_with(h: &History, checks: Checks, stop_at_first: bool, source
         findings.push(StepFinding { step: 0, finding: Finding { prop: "HARNESS", class: "build-mismatch".into(), msg: format!("map built from the recipe differs from it: {}", pre.diff(&h.init)) } });
     }
     let mut executed: Vec<Step> = vec![];
+    let mut tainted = false;
     let mut si = 0usize;
     while let Some(step_owned) = source(si, &pre) {
         let step = &step_owned;
@@ -222,8 +223,14 @@ pub fn run_history_with(h: &History, checks: Checks, stop_at_first: bool, source
                     let name: String = format!("{:?}", tx.ops[0]).chars().take_while(|c| c.is_alphanumeric()).collect();
                     *probes.k_ok.entry(name).or_default() += 1;
                 }
+                let any_finding = !fs.is_empty();
                 for f in fs {
                     findings.push(StepFinding { step: si, finding: f });
+                }
+                if res.is_ok() && (kp.premise_failed > 0 || any_finding) {
+                    // a successful call outside the statement's premise (or one that already
+                    // broke the property): later states are not in the quantifier's domain
+                    tainted = true;
                 }
             }
             probes.callbacks += u64::from(o.callbacks);
@@ -294,7 +301,7 @@ pub fn run_history_with(h: &History, checks: Checks, stop_at_first: bool, source
         outs.push(out);
         pre = post;
         si += 1;
-        if stop_at_first && !findings.is_empty() {
+        if (stop_at_first && !findings.is_empty()) || tainted {
             break;
         }
     }
